@@ -116,6 +116,7 @@ def required(tier):
         "cli_gt_checked": 30000, "cli_posterior_zero_checked": 15000, "cli_gp_zero_checked": 6000, "cli_refmasked_records": 5000,
         "cli_all_alts_removed_records": 3000, "cli_wellformed_checked": 11000, "cli_runs_inbred": 600,
         "fn_exact_dead_allele_cases": 3000, "fn_exact_dead_allele_cases_inbred": 2000,
+        "sampler_haplotype_sets_checked": 2000, "sampler_haplotype_sets_checked_tiny_priors": 100,
     }
 
 
@@ -602,7 +603,7 @@ def build_hap_records(rng, ds):
     single = [i for i, L in enumerate(ds.loci) if len(L["snvs"]) >= 1]
     pick = list(multi) + [i for i in single if i not in multi]
     # roles: boundary (0.7,0.2,0.1), trailing-zero, all-zero, no-alt, refmasked, refmasked-no-alt
-    for role, idx in zip(["boundary", "last-zero", "ref-zero", "last-zero-2", "all-zero"], pick):
+    for role, idx in zip(["boundary", "last-zero", "ref-zero", "tiny", "last-zero-2", "all-zero"], pick):
         roles[idx] = role
     rest = [i for i in range(len(ds.loci)) if i not in roles]
     for role in ["refmasked-no-alt", "no-alt", "refmasked"]:
@@ -612,7 +613,7 @@ def build_hap_records(rng, ds):
     for i, L in enumerate(ds.loci):
         role = roles.get(i, "random")
         want = {"boundary": int(rng.integers(2, 5)), "last-zero": int(rng.integers(2, 5)), "last-zero-2": int(rng.integers(1, 4)), "ref-zero": int(rng.integers(1, 4)),
-                "all-zero": int(rng.integers(1, 4)), "no-alt": 0, "refmasked-no-alt": 0, "refmasked": int(rng.integers(1, 5))}.get(role, int(rng.integers(0, 6)))
+                "all-zero": int(rng.integers(1, 4)), "tiny": int(rng.integers(2, 5)), "no-alt": 0, "refmasked-no-alt": 0, "refmasked": int(rng.integers(1, 5))}.get(role, int(rng.integers(0, 6)))
         alts = locus_alts(rng, ds, L, want)
         r = {"contig": L["contig"], "pos0": L["start"], "id": L["name"], "ref": ds.contigs[L["contig"]][L["start"]:L["stop"]], "alts": alts, "role": role}
         n = 1 + len(alts)
@@ -620,6 +621,10 @@ def build_hap_records(rng, ds):
         if role == "boundary":
             base = [["0.7", "0.2", "0.1"], ["0.9", "0.1", "0.3"], ["0.6", "0.3", "0.1"], ["0.5", "0.25", "0.125"]][int(rng.integers(4))]
             forced = {"tokens": {"AFP": (base + ["0.05", "0.15"])[:n]}, "refmasked": False}
+        elif role == "tiny":
+            # session 4: priors of extreme dynamic range - tiny but NOT zero (the alleles stay callable when the reads carry them)
+            base = [["1", "1e-09", "1e-09", "1e-10", "1e-12"], ["0.999", "1e-08", "1e-09", "0.001", "1e-15"], ["1e-09", "1", "1e-11", "1e-09", "1e-20"]][int(rng.integers(3))]
+            forced = {"tokens": {"AFP": base[:n]}, "refmasked": False}
         elif role in ("last-zero", "last-zero-2"):
             forced = {"AFP": "last-zero", "WT": "last-zero", "RC": "last-zero", "refmasked": False}
         elif role == "ref-zero":
@@ -638,7 +643,9 @@ def build_hap_records(rng, ds):
 
 def plan_runs(rng, recs):
     """Option sets for one haplotype VCF; every one is run with the three programs."""
-    file_toks = {f: sorted({t for r in recs for t in r["tokens"].get(f, [])}) for f in FILTER_FIELDS}
+    # thresholds are taken from the values written in the file; the filter syntax is plain decimal (no exponent notation - the
+    # program rejects 'AFP>=1e-09' with a clear message, which is not a property violation), so such tokens are left out
+    file_toks = {f: sorted({t for r in recs for t in r["tokens"].get(f, []) if "e" not in t.lower()}) for f in FILTER_FIELDS}
 
     def thr_for(field):
         toks = file_toks[field]
@@ -833,7 +840,27 @@ def exec_run(ds, recs, hap_path, run, col, payload):
 
     prog, tag = run["program"], run["tag"]
     filt = tuple(run["filter"]) if run["filter"] else None
-    out, exc = cli.run_inproc(argv_for(ds, hap_path, run))
+    handed = []
+    spy_target = None
+    if prog in ("call", "call-pedigree"):
+        import importlib
+
+        from vlib import monitors
+        mod = importlib.import_module("mchap.application." + prog.replace("-", "_"))
+        cname = "CallingMCMC" if prog == "call" else "PedigreeCallingMCMC"
+        Real = getattr(mod, cname)
+
+        def factory(*a, **kw):
+            h = kw.get("haplotypes")
+            handed.append(None if h is None else int(len(h)))
+            return Real(*a, **kw)
+
+        spy_target = (mod, cname, factory)
+    if spy_target is not None:
+        with monitors.patched(spy_target):
+            out, exc = cli.run_inproc(argv_for(ds, hap_path, run))
+    else:
+        out, exc = cli.run_inproc(argv_for(ds, hap_path, run))
     cli.relax_warnings()
     col.count("cli_runs")
     col.count("cli_runs_" + prog)
@@ -866,6 +893,23 @@ def exec_run(ds, recs, hap_path, run, col, payload):
         if E.kind != "PASS":
             seen_unusable = True
         found += check_record(prog, r, E, got[0], header, tag, filt, col)
+    if spy_target is not None and exc is None and None not in handed:
+        # what the program hands to its sampler: every retained allele that is neither masked nor of zero prior must be there
+        per = len(ds.samples) if prog == "call" else 1
+        want_seq = [(i, exps[i].n_out - len(exps[i].dead)) for i in order if exps[i].kind == "PASS" for _ in range(per)]
+        if len(want_seq) == len(handed):
+            for (i, w_), g_ in zip(want_seq, handed):
+                col.count("sampler_haplotype_sets_checked")
+                if recs[i].get("role") == "tiny":
+                    col.count("sampler_haplotype_sets_checked_tiny_priors")
+                if g_ < w_:
+                    found.append(("positive-prior-allele-withheld-from-sampler", "%s with %s: the sampler of record %s received %d haplotypes, but %d retained alleles are unmasked with a prior above zero (AFPRIOR would list them as possible)"
+                                  % (prog, opt_text(tag, filt), rec_text(recs[i]), g_, w_)))
+                    break
+                if g_ > w_:
+                    col.count("sampler_given_more_haplotypes_than_alive_not_judged")
+        else:
+            col.count("sampler_call_sequence_not_aligned_skipped")
     if exc is not None:
         col.count("cli_runs_raised")
         cause = root_cause(exc)
